@@ -12,7 +12,7 @@ META = {
     "bounds": {"quick": {"nav": "22 navigation primitives (incl. the upward members parent/file applied to every derived node, datasets too) x all flag combinations (restrict: all 64 combinations of old/new flags)",
                           "mutate": "22 mutating members (group, dataset, attribute manager incl. MutableMapping mixins, metadata) on read_only nodes",
                           "skel": "14 reading members on skel_only nodes", "restrict_monotone": "all 512 flag triples",
-                          "closure": "real container stack on the substrate (plain file and IH5 record with a patch boundary, reopened), 5 start nodes (root, groups at depth 1/2, datasets at depth 2/3) x 8 flag combinations (solver-chosen, realised), navigation chains of ANY length (the set of reached (node, flags, local root) states is closed under all primitives; fixpoint after <= 12 rounds, checked) over parent/file/restrict/query(3 schemas)/values/items/getitem/get/require_group/visititems/absolute paths, then 20+ mutators and 10 readers on every node reached"}},
+                          "closure": "real container stack on the substrate (plain file and IH5 record with a patch boundary, reopened), 6 start nodes (the container object itself, root wrapper, groups at depth 1/2, datasets at depth 2/3) x 8 flag combinations (solver-chosen, realised), navigation chains of ANY length (the set of reached (node, flags, local root) states is closed under all primitives; fixpoint after <= 12 rounds, checked) over parent/file/restrict/query(3 schemas)/values/items/getitem/get/require_group/visititems/absolute paths, then 20+ mutators and 10 readers on every node reached"}},
     "outside": ["bypassing through __wrapped__/private attributes (documented as soft restrictions)", "widgets' and packers' own use of restricted nodes",
                 "real h5py objects (recording mocks stand in for raw nodes)"],
     "stubs": ["numpy.cumproduct import shim", "recording raw group/dataset/attribute objects", "container stand-in providing metador.query and an empty raw metadata store (one-step harnesses only; the closure partitions use the real container)", "in-memory h5py substrate for the closure partitions (counterexamples are replayed on real h5py files)"],
